@@ -87,6 +87,7 @@ type Lemma struct {
 type GhostField struct {
 	Name string
 	Type string // int, bool, seq
+	Free bool   // exempt from frame checks (monotone bookkeeping: counters, closed flags)
 }
 
 type GlobalInv struct {
@@ -172,7 +173,8 @@ func (c *Contracts) LoadContractFile(file, pkgPath string) error {
 			cur, curLemma = nil, nil
 		case "ghost":
 			w2, r2 := splitWord(rest)
-			c.Ghosts[w2] = &GhostField{Name: w2, Type: strings.TrimSpace(r2)}
+			ty, flag := splitWord(strings.TrimSpace(r2))
+			c.Ghosts[w2] = &GhostField{Name: w2, Type: ty, Free: strings.TrimSpace(flag) == "free"}
 		case "const":
 			w2, r2 := splitWord(rest)
 			c.Consts[w2] = strings.TrimSpace(strings.TrimPrefix(strings.TrimSpace(r2), "="))
